@@ -1,5 +1,429 @@
-//! engine `alias` (placeholder)
+//! Engine `alias` (C12): arbitrary field names and argument lists through
+//!  * the compiler's alias function (`MergedScalarFieldSelection::normalization_alias`, i.e.
+//!    `get_aliased_mutation_field_name` over `to_alias_str_chunk`),
+//!  * the two printers (compact operation text, normalization AST text) for a map holding that one
+//!    scalar field, and
+//!  * the runtime's `getNetworkResponseKey`, cut out of cache.ts and run under node on the
+//!    normalization AST text the compiler printed (js/alias_runtime.mjs, one node process per run).
+//!
+//! request:  C12.alias \t <hex name> <ARGS in the wire encoding of isograph_schema::verif>
+//! answer :  alias (hex | none | panic) \t query text (hex | panic) \t normalization AST (hex | panic)
+//!           \t runtime key (hex | syntax-error | panic | error…)
+use common_lang_types::{EmbeddedLocation, WithLocationPostfix};
+use graphql_lang_types::{FloatValue, NameValuePair};
+use graphql_network_protocol::GraphQLOperationKind;
+use hx_common::*;
+use intern::string_key::Intern;
+use isograph_lang_types::{ArgumentKeyAndValue, NonConstantValue};
+use prelude::Postfix;
+use isograph_schema::{
+    MergedScalarFieldSelection, MergedSelectionMap, MergedServerSelection, NameAndArguments,
+    NormalizationKey, WrappedMergedSelectionMap,
+};
+use std::io::{BufRead, BufReader, Write};
+use std::panic::{catch_unwind, AssertUnwindSafe};
+use std::process::{Child, ChildStdin, ChildStdout, Command, Stdio};
+
+// ---------------------------------------------------------------- values as data
+
+#[derive(Clone, Debug)]
+enum V {
+    Var(String),
+    Int(i64),
+    Bool(bool),
+    Str(String),
+    Float(f64),
+    Null,
+    Enum(String),
+    List(Vec<V>),
+    Obj(Vec<(String, V)>),
+}
+
+fn wire_value(out: &mut String, v: &V) {
+    match v {
+        V::Var(n) => out.push_str(&format!(" V {}", hex(n.as_bytes()))),
+        V::Int(i) => out.push_str(&format!(" I {i}")),
+        V::Bool(b) => out.push_str(&format!(" B {}", u8::from(*b))),
+        V::Str(s) => out.push_str(&format!(" S {}", hex(s.as_bytes()))),
+        V::Float(f) => out.push_str(&format!(" F {}", hex(f.to_string().as_bytes()))),
+        V::Null => out.push_str(" N"),
+        V::Enum(e) => out.push_str(&format!(" E {}", hex(e.as_bytes()))),
+        V::List(items) => {
+            out.push_str(&format!(" L {}", items.len()));
+            for i in items {
+                wire_value(out, i);
+            }
+        }
+        V::Obj(fields) => {
+            out.push_str(&format!(" O {}", fields.len()));
+            for (k, v) in fields {
+                out.push_str(&format!(" {}", hex(k.as_bytes())));
+                wire_value(out, v);
+            }
+        }
+    }
+}
+
+fn wire(name: &str, args: &[(String, V)]) -> String {
+    let mut out = format!("{} {}", hex(name.as_bytes()), args.len());
+    for (k, v) in args {
+        out.push_str(&format!(" {}", hex(k.as_bytes())));
+        wire_value(&mut out, v);
+    }
+    out
+}
+
+struct Toks<'a>(std::str::SplitWhitespace<'a>);
+
+impl Toks<'_> {
+    fn next(&mut self) -> Option<String> {
+        self.0.next().map(|s| s.to_string())
+    }
+    fn string(&mut self) -> Option<String> {
+        String::from_utf8(unhex(&self.next()?)?).ok()
+    }
+    fn value(&mut self) -> Option<V> {
+        Some(match self.next()?.as_str() {
+            "V" => V::Var(self.string()?),
+            "I" => V::Int(self.next()?.parse().ok()?),
+            "B" => V::Bool(self.next()? == "1"),
+            "S" => V::Str(self.string()?),
+            "F" => V::Float(self.string()?.parse().ok()?),
+            "N" => V::Null,
+            "E" => V::Enum(self.string()?),
+            "L" => {
+                let n: usize = self.next()?.parse().ok()?;
+                let mut items = vec![];
+                for _ in 0..n {
+                    items.push(self.value()?);
+                }
+                V::List(items)
+            }
+            "O" => {
+                let n: usize = self.next()?.parse().ok()?;
+                let mut fields = vec![];
+                for _ in 0..n {
+                    let k = self.string()?;
+                    fields.push((k, self.value()?));
+                }
+                V::Obj(fields)
+            }
+            _ => return None,
+        })
+    }
+}
+
+fn parse_wire(s: &str) -> Option<(String, Vec<(String, V)>)> {
+    let mut t = Toks(s.split_whitespace());
+    let name = t.string()?;
+    let n: usize = t.next()?.parse().ok()?;
+    let mut args = vec![];
+    for _ in 0..n {
+        let k = t.string()?;
+        args.push((k, t.value()?));
+    }
+    Some((name, args))
+}
+
+fn to_value(v: &V) -> NonConstantValue {
+    let loc = EmbeddedLocation::todo_generated;
+    match v {
+        V::Var(n) => NonConstantValue::Variable(
+            n.intern().to::<common_lang_types::VariableName>().into(),
+        ),
+        V::Int(i) => NonConstantValue::Integer(*i),
+        V::Bool(b) => NonConstantValue::Boolean(*b),
+        V::Str(s) => NonConstantValue::String(s.intern().into()),
+        V::Float(f) => NonConstantValue::Float(FloatValue::new(*f)),
+        V::Null => NonConstantValue::Null,
+        V::Enum(e) => NonConstantValue::Enum(e.intern().into()),
+        V::List(items) => NonConstantValue::List(
+            items.iter().map(|i| to_value(i).with_location(loc())).collect(),
+        ),
+        V::Obj(fields) => NonConstantValue::Object(
+            fields
+                .iter()
+                .map(|(k, v)| NameValuePair {
+                    name: k.intern().to::<common_lang_types::ValueKeyName>().with_location(loc()),
+                    value: to_value(v).with_location(loc()),
+                })
+                .collect(),
+        ),
+    }
+}
+
+// ---------------------------------------------------------------- generator
+
+const NAME_START: &[&str] = &["a", "b", "f", "u", "x", "A", "Z", "_"];
+const NAME_REST: &[&str] = &["a", "b", "e", "r", "s", "x", "Z", "0", "7", "_", "_"];
+const STR_ALPHABET: &[&str] = &[
+    "a", "b", "c", "z", "A", "Q", "0", "5", "9", "_", "_", " ", " ", "-", ".", ",", ":", ";", "!", "?", "(", ")",
+    "[", "]", "{", "}", "<", ">", "/", "+", "*", "&", "%", "$", "#", "@", "=", "~", "^", "|", "'", "é", "ö", "漢",
+    "→", "😀", "𝄞", "\\n", "\\t", "\\\\", "\\u00e9", "\\x41", "\\0", "\\u{1F600}", "\\'", "\\q",
+];
+
+fn gen_name(r: &mut Rng) -> String {
+    let mut s = (*r.pick(NAME_START)).to_string();
+    for _ in 0..r.below(6) {
+        s.push_str(*r.pick(NAME_REST));
+    }
+    if r.chance(1, 12) {
+        s.push_str("____");
+        s.push_str(*r.pick(NAME_REST));
+    }
+    if r.chance(1, 40) {
+        s.push_str(*r.pick(&["é", "😀"]));
+    }
+    s
+}
+
+fn gen_string(r: &mut Rng) -> String {
+    match r.below(10) {
+        0 => String::new(),
+        1 | 2 => {
+            // word characters only
+            let mut s = String::new();
+            for _ in 0..r.range(1, 8) {
+                s.push_str(*r.pick(NAME_REST));
+            }
+            s
+        }
+        _ => gen_text(r, 8, STR_ALPHABET),
+    }
+}
+
+fn gen_int(r: &mut Rng) -> i64 {
+    match r.below(12) {
+        0 => 0,
+        1 => -1,
+        2 => -(r.below(1000) as i64),
+        3 => 9_007_199_254_740_992 + r.below(5000) as i64,
+        4 => -(9_007_199_254_740_992 + r.below(5000) as i64),
+        5 => i64::MAX - r.below(3) as i64,
+        6 => i64::MIN + r.below(3) as i64,
+        7 => (r.next() >> 1) as i64,
+        8 => 9_007_199_254_740_992 - r.below(3) as i64,
+        _ => r.below(100_000) as i64,
+    }
+}
+
+fn gen_float(r: &mut Rng) -> f64 {
+    let mantissa = (r.below(2_000_000) as f64 - 1_000_000.0) / *r.pick(&[1.0, 10.0, 100.0, 1000.0, 8.0, 64.0]);
+    match r.below(10) {
+        0 => 1e21,
+        1 => 1e-7,
+        2 => -0.0,
+        3 => 0.1 + 0.2,
+        4 => mantissa * 1e18,
+        5 => mantissa * 1e-9,
+        6 => 123456789.123,
+        _ => mantissa,
+    }
+}
+
+fn gen_value(r: &mut Rng, depth: usize) -> V {
+    match r.below(if depth >= 3 { 16 } else { 20 }) {
+        0 | 1 | 2 => V::Var(gen_name(r)),
+        3 | 4 | 5 => V::Int(gen_int(r)),
+        6 => V::Bool(r.chance(1, 2)),
+        7 | 8 | 9 | 10 | 11 => V::Str(gen_string(r)),
+        12 => V::Float(gen_float(r)),
+        13 => V::Null,
+        14 | 15 => V::Enum(gen_name(r)),
+        16 if r.chance(1, 6) => V::List((0..r.below(3)).map(|_| gen_value(r, depth + 1)).collect()),
+        _ => V::Obj((0..r.below(4)).map(|_| (gen_name(r), gen_value(r, depth + 1))).collect()),
+    }
+}
+
+fn gen_args(r: &mut Rng) -> Vec<(String, V)> {
+    let n = match r.below(10) {
+        0 => 0,
+        1..=5 => 1,
+        6..=8 => 2,
+        _ => 3,
+    };
+    (0..n).map(|_| (gen_name(r), gen_value(r, 0))).collect()
+}
+
+/// change one character of one string somewhere in the value (non-word <-> other non-word / `_`)
+fn mutate_value(r: &mut Rng, v: &V) -> V {
+    match v {
+        V::Str(s) if !s.is_empty() => {
+            let chars: Vec<char> = s.chars().collect();
+            let i = r.below(chars.len());
+            let rep = *r.pick(&['_', ' ', '-', 'é', 'x']);
+            let mut out: String = chars[..i].iter().collect();
+            out.push(rep);
+            out.extend(chars[i + 1..].iter());
+            V::Str(out)
+        }
+        V::Obj(fields) if !fields.is_empty() => {
+            let i = r.below(fields.len());
+            let mut f = fields.clone();
+            f[i].1 = mutate_value(r, &fields[i].1);
+            V::Obj(f)
+        }
+        V::Int(i) => V::Int(i.wrapping_add(1)),
+        other => other.clone(),
+    }
+}
+
+fn gen_case(r: &mut Rng, prop: &str) -> String {
+    let name = gen_name(r);
+    let args = gen_args(r);
+    if r.chance(1, 3) {
+        // a second selection for the uniqueness clause
+        let (name2, args2) = match r.below(10) {
+            0 | 1 => (name.clone(), args.clone()),
+            2 => (gen_name(r), gen_args(r)),
+            3 if !args.is_empty() => {
+                // move the tail of the argument list into a string: `a(b: "x", c: $y)` vs `a(b: "x____c___v_y")`
+                (name.clone(), vec![(args[0].0.clone(), V::Str(format!("x____{}___v_y", gen_name(r))))])
+            }
+            _ => {
+                let mut a2 = args.clone();
+                if !a2.is_empty() {
+                    let i = r.below(a2.len());
+                    a2[i].1 = mutate_value(r, &args[i].1);
+                }
+                (name.clone(), a2)
+            }
+        };
+        return format!("{prop}.alias2\t{}\t{}", wire(&name, &args), wire(&name2, &args2));
+    }
+    format!("{prop}.alias\t{}", wire(&name, &args))
+}
+
+// ---------------------------------------------------------------- node
+
+struct Node {
+    _child: Child,
+    stdin: ChildStdin,
+    stdout: BufReader<ChildStdout>,
+}
+
+impl Node {
+    fn start() -> Option<Node> {
+        let script = concat!(env!("CARGO_MANIFEST_DIR"), "/../../js/alias_runtime.mjs");
+        let mut child = Command::new("node")
+            .arg(script)
+            .arg("/repo/libs/isograph-react/src/core/cache.ts")
+            .stdin(Stdio::piped())
+            .stdout(Stdio::piped())
+            .spawn()
+            .ok()?;
+        let stdin = child.stdin.take()?;
+        let stdout = BufReader::new(child.stdout.take()?);
+        Some(Node { _child: child, stdin, stdout })
+    }
+    fn ask(&mut self, text: &str) -> String {
+        if writeln!(self.stdin, "{}", hex(text.as_bytes())).is_err() || self.stdin.flush().is_err() {
+            return "node-dead".to_string();
+        }
+        let mut line = String::new();
+        match self.stdout.read_line(&mut line) {
+            Ok(n) if n > 0 => line.trim_end().to_string(),
+            _ => "node-dead".to_string(),
+        }
+    }
+}
+
+// ---------------------------------------------------------------- run
+
+fn run_case(node: &mut Option<Node>, f: &[&str]) -> String {
+    let Some((name, args)) = f.get(1).and_then(|w| parse_wire(w)) else {
+        return "bad-op".to_string();
+    };
+    let selection = match catch_unwind(AssertUnwindSafe(|| MergedScalarFieldSelection {
+        name: name.intern().into(),
+        arguments: args
+            .iter()
+            .map(|(k, v)| ArgumentKeyAndValue { key: k.intern().into(), value: to_value(v) })
+            .collect(),
+        is_fallible: false,
+    })) {
+        Ok(s) => s,
+        Err(_) => return "panic\tpanic\tpanic\tpanic".to_string(),
+    };
+    let alias = match catch_unwind(AssertUnwindSafe(|| selection.normalization_alias())) {
+        Ok(Some(a)) => hex(a.as_bytes()),
+        Ok(None) => "none".to_string(),
+        Err(_) => "panic".to_string(),
+    };
+    let mut map = MergedSelectionMap::new();
+    map.insert(
+        NormalizationKey::ServerField(NameAndArguments {
+            name: selection.name,
+            arguments: selection.arguments.clone(),
+        }),
+        MergedServerSelection::ScalarField(selection.clone()),
+    );
+    let wrapped = WrappedMergedSelectionMap::new(map);
+    let query_text = match catch_unwind(AssertUnwindSafe(|| {
+        graphql_network_protocol::verif::verif_query_text(
+            GraphQLOperationKind::Query,
+            "Q".intern().into(),
+            &wrapped,
+            &[],
+            true,
+        )
+    })) {
+        Ok(t) => hex(t.as_bytes()),
+        Err(_) => "panic".to_string(),
+    };
+    let norm = catch_unwind(AssertUnwindSafe(|| {
+        artifact_content::verif::verif_normalization_ast_text(
+            &[MergedServerSelection::ScalarField(selection.clone())],
+            0,
+        )
+    }));
+    let (norm_field, runtime) = match norm {
+        Ok(t) => {
+            let answer = match node {
+                Some(n) => n.ask(&t),
+                None => "no-node".to_string(),
+            };
+            let runtime = match answer.split_once(' ') {
+                Some(("ok", h)) => h.to_string(),
+                _ => answer,
+            };
+            (hex(t.as_bytes()), runtime)
+        }
+        Err(_) => ("panic".to_string(), "panic".to_string()),
+    };
+    format!("{alias}\t{query_text}\t{norm_field}\t{runtime}")
+}
+
+fn alias_only(w: &str) -> String {
+    let Some((name, args)) = parse_wire(w) else {
+        return "bad-op".to_string();
+    };
+    match catch_unwind(AssertUnwindSafe(|| {
+        MergedScalarFieldSelection {
+            name: name.intern().into(),
+            arguments: args
+                .iter()
+                .map(|(k, v)| ArgumentKeyAndValue { key: k.intern().into(), value: to_value(v) })
+                .collect(),
+            is_fallible: false,
+        }
+        .normalization_alias()
+    })) {
+        Ok(Some(a)) => hex(a.as_bytes()),
+        Ok(None) => "none".to_string(),
+        Err(_) => "panic".to_string(),
+    }
+}
+
 pub fn main() {
-    eprintln!("alias engine not built yet");
-    std::process::exit(2);
+    let prop = std::env::var("HX_PROP").unwrap_or_else(|_| "C12".to_string());
+    let is_run = std::env::args().nth(1).as_deref() == Some("run");
+    let mut node = if is_run { Node::start() } else { None };
+    main_loop(&|r, _i| vec![gen_case(r, &prop)], &mut |f| {
+        if f[0].ends_with(".alias2") && f.len() >= 3 {
+            format!("{}\t{}", alias_only(f[1]), alias_only(f[2]))
+        } else {
+            run_case(&mut node, f)
+        }
+    });
 }
